@@ -4,7 +4,7 @@
    current directory only to resolve spellings (abs_path).  Goroutine independence of the coding
    itself is Props/C12.v. *)
 From Coq Require Import Permutation.
-From Gopar Require Import Model.Base Model.CRC Model.GoPath Model.FS Model.Par2 Proofs.Par2Facts Proofs.Par2Create Proofs.CreatePerm.
+From Gopar Require Import Model.Base Model.CRC Model.GoPath Model.FS Model.Par2 Proofs.Par2Facts Proofs.Par2Create Proofs.CreatePerm Proofs.Par2CreatePaths.
 Open Scope N_scope.
 
 (* ORDER OF THE INPUT LIST: for any permutation of the (relative name, content) inputs with distinct
@@ -30,3 +30,33 @@ Theorem C17_spellings :
   abs_path cwd [47; 116; 47; 47; 115; 47; 46; 47; 97] = [47; 116; 47; 115; 47; 97].   (* /t//s/./a *)
 Proof. vm_compute. repeat split; reflexivity. Qed.
 Print Assumptions C17_spellings.
+
+(* CURRENT DIRECTORY AND SPELLING: two invocations - from any two directories, with any spellings - whose
+   index path and input paths RESOLVE to the same absolute paths return the same result and perform the
+   same sequence of reads and writes (same resolved paths, same bytes, same outcomes), for every initial
+   file system and fault schedule.  The two side conditions are needed (counterexamples
+   cp4_trailing_slash_corner, cp4_relative_cwd_corner in Proofs/Par2CreatePaths.v): "out.par2/" resolves
+   like "out.par2" but has no extension, and a relative current directory makes resolution itself relative *)
+Theorem C17_cwd_spelling_invariant : forall md5 cwd1 cwd2 par1 par2 files1 files2 p fs sched,
+  str_eqb (ext par1) EXT_PAR2 = str_eqb (ext par2) EXT_PAR2 ->
+  is_abs (abs_path cwd1 par1) = true ->
+  abs_path cwd1 par1 = abs_path cwd2 par2 ->
+  map (abs_path cwd1) files1 = map (abs_path cwd2) files2 ->
+  let r1 := par2_create md5 cwd1 par1 files1 p (io_init fs sched) in
+  let r2 := par2_create md5 cwd2 par2 files2 p (io_init fs sched) in
+  fst r1 = fst r2 /\
+  map (resolve_event cwd1) (io_trace (snd r1)) = map (resolve_event cwd2) (io_trace (snd r2)).
+Proof. exact create_cwd_spelling_invariant. Qed.
+Print Assumptions C17_cwd_spelling_invariant.
+
+(* the same for ordinary last components (no trailing slash, ".", ".."): then the extensions agree by themselves *)
+Theorem C17_cwd_spelling_invariant_plain : forall md5 cwd1 cwd2 par1 par2 files1 files2 p fs sched,
+  is_abs cwd1 = true -> plain_last par1 -> plain_last par2 ->
+  abs_path cwd1 par1 = abs_path cwd2 par2 ->
+  map (abs_path cwd1) files1 = map (abs_path cwd2) files2 ->
+  let r1 := par2_create md5 cwd1 par1 files1 p (io_init fs sched) in
+  let r2 := par2_create md5 cwd2 par2 files2 p (io_init fs sched) in
+  fst r1 = fst r2 /\
+  map (resolve_event cwd1) (io_trace (snd r1)) = map (resolve_event cwd2) (io_trace (snd r2)).
+Proof. exact create_cwd_spelling_invariant_plain. Qed.
+Print Assumptions C17_cwd_spelling_invariant_plain.
